@@ -49,7 +49,7 @@ BadPadBytes(n) == LET p == IF ConfPadLen(n) = 0 THEN 16 ELSE ConfPadLen(n) IN Re
 Dgram(d) ==
   LET c == d.forCmd   mk == Marker(d.call, d.n)   sq == Seq4(d.call, d.n)   iv == Iv(d.call * 8 + d.n)
       grp == IF "group" \in DOMAIN CmdInfo(c) THEN <<CmdInfo(c).group>> ELSE <<>>
-      body == IF d.cc # "ok" THEN grp ELSE IF d.bodyOK THEN BodyBytes(c, mk) ELSE <<mk, 129, 2>>
+      body == IF d.cc # "ok" THEN grp ELSE IF d.kind # "trunc" THEN BodyBytes(c, mk) ELSE <<mk, 129, 2>>
       msg == MsgFor(c, CcByte(d.cc), body)
   IN IF ~InSession
      THEN IF d.kind = "garbage"
@@ -78,7 +78,7 @@ OutcomeAt(e) ==
                      call |-> e.call, n |-> e.n, kind |-> "final"]
       o == e.o
   IN CASE o.kind = "final"    -> << <<A(c, o.cc)>>, <<>> >>
-       [] o.kind = "trunc"    -> << <<[A(c, "ok") EXCEPT !.bodyOK = FALSE, !.kind = "trunc"]>>, <<>> >>
+       [] o.kind = "trunc"    -> << <<[A(c, "ok") EXCEPT !.bodyOK = (c \notin NeedsBody), !.kind = "trunc"]>>, <<>> >>
        [] o.kind = "garbage"  -> << <<[A(c, "ok") EXCEPT !.dec = FALSE, !.sig = FALSE, !.kind = "garbage"]>>, <<>> >>
        [] o.kind = "lost"     -> << <<>>, <<>> >>
        [] o.kind = "xerr"     -> << <<>>, <<>> >>
@@ -116,6 +116,7 @@ Header == [header |-> TRUE, family |-> "console",
            prefixes |-> [hs |-> HandshakeSteps(S)],
            suite |-> [authNum |-> AuthNum, integNum |-> IntegNum, integLen |-> S.integLen, bmcSid |-> S.bmcSid],
            cmds |-> [c \in Cmds |-> [netfn |-> CmdInfo(c).netfn, num |-> CmdInfo(c).num, body |-> CmdInfo(c).body,
+                                      name |-> (CASE c = "A" -> "Get Device ID" [] c = "B" -> "Get System GUID" [] OTHER -> "Raw"),
                                       wire |-> (IF "group" \in DOMAIN CmdInfo(c) THEN <<CmdInfo(c).group>> ELSE <<>>) \o CmdInfo(c).body]]]
 ASSUME PrintT(<<"HEADER", ToJson(Header)>>)
 
